@@ -80,6 +80,34 @@ pub const KF_STATE_OPERAND_PROJ: &str = "C18-state-operand-projection-borrow";
 /// `delay(N, x, t.0)`: the delay time is taken from the pointer word of the projection instead of
 /// the projected value
 pub const KF_DELAY_TIME_PROJ: &str = "C18-delay-time-projection";
+/// `if c { t.0 } else { .. }`: the phi copies the element pointer, the result is the handle
+pub const KF_IF_ARM_PROJ: &str = "C18-if-arm-projection";
+/// a closure that captures a variable bound by a tuple/record pattern copies its value when it is
+/// created; a later assignment to the variable is not seen by the closure (the VM shares it)
+pub const KF_CAPTURE_BY_VALUE: &str = "C18-destructured-capture-by-value";
+/// a one-element tuple where a number is expected (the parser reads `(e)` as a 1-tuple when a
+/// comma follows within its lookahead; the type checker unifies 1-tuples with numbers): the Rust
+/// backend mixes the pointer representation with the scalar one
+pub const KF_ONE_TUPLE: &str = "C18-one-tuple-as-float";
+
+const SIG_DIFF: &str = "c18:output-differs-from-vm";
+
+/// Narrow tolerances: (finding id, does this failure belong to it?).  Each needs the failure
+/// signature of the finding AND the finding's code shape in the emitted Rust / the source.
+fn tolerated(sig: &str, src: &str, pat: &Patterns, cx: &Cx) -> Option<&'static str> {
+    if cx.strict {
+        return None;
+    }
+    let table: [(&'static str, bool); 6] = [
+        (KF_STATE_OPERAND_PROJ, sig.starts_with("c18:emitted-rust-does-not-compile:E0502:") && pat.state_operand_load),
+        (KF_MATH_EXT, sig.starts_with("c18:generated-program-crashed:unwrap-err:unexpected-external-call") && EXT_MATH_1.iter().chain(EXT_MATH_2.iter()).any(|f| src.contains(&format!("{f}(")))),
+        (KF_ONE_TUPLE, (sig.starts_with("c18:generated-program-crashed:unwrap-err:invalid-memory-handle") || sig == SIG_DIFF) && pat.one_tuple),
+        (KF_DELAY_TIME_PROJ, sig == SIG_DIFF && pat.delay_time_element_ptr),
+        (KF_IF_ARM_PROJ, sig == SIG_DIFF && pat.phi_of_element_ptr),
+        (KF_CAPTURE_BY_VALUE, sig == SIG_DIFF && pat.element_captured_by_value_and_assigned),
+    ];
+    table.iter().find(|(id, hit)| *hit && cx.excluded(id)).map(|(id, _)| *id)
+}
 
 fn render_host(n_in: usize, n: u64, inputs: &Inputs, call_main: bool) -> String {
     let mut rows = String::new();
@@ -169,6 +197,119 @@ struct Out {
     n_out: u32,
     varying: bool,
     counters: Vec<String>,
+    /// defect patterns found in the emitted Rust (for the narrow tolerances of known findings)
+    pat: Patterns,
+}
+
+/// Syntactic patterns of the emitted Rust that identify the code shapes of recorded findings.
+/// Registers are numbered per generated function, so every function is analysed on its own.
+#[derive(Default, Clone, Debug)]
+struct Patterns {
+    /// a one-element tuple is built and projected (`alloc(1)` + `get_element(.., 0)`)
+    one_tuple: bool,
+    /// a phi copies a register that holds the *pointer* of a tuple/record element
+    phi_of_element_ptr: bool,
+    /// the time operand of a delay is the pointer of a tuple/record element
+    delay_time_element_ptr: bool,
+    /// `state.mem(self.memory.load(..))` / `state.delay(self.memory.load(..), ..)`
+    state_operand_load: bool,
+    /// a closure captures the value behind an element pointer and the element is stored to in
+    /// the same function
+    element_captured_by_value_and_assigned: bool,
+}
+
+fn reg_no(s: &str) -> Option<u32> {
+    let r = s.strip_prefix("reg_")?;
+    let d: String = r.chars().take_while(|c| c.is_ascii_digit()).collect();
+    if d.is_empty() { None } else { d.parse().ok() }
+}
+
+fn analyse_fn(lines: &[&str], p: &mut Patterns) {
+    use std::collections::BTreeSet;
+    let mut elem: BTreeSet<u32> = BTreeSet::new();
+    let mut alloc1: BTreeSet<u32> = BTreeSet::new();
+    for l in lines {
+        let t = l.trim();
+        if let Some(n) = reg_no(t) {
+            if t.contains("[0] = self.memory.get_element(") {
+                elem.insert(n);
+            }
+            if t.ends_with("[0] = self.memory.alloc(1usize);") {
+                alloc1.insert(n);
+            }
+        }
+    }
+    let mut captured: BTreeSet<u32> = BTreeSet::new();
+    let mut stored: BTreeSet<u32> = BTreeSet::new();
+    for l in lines {
+        let t = l.trim();
+        if let Some(i) = t.find("self.memory.get_element(reg_") {
+            let rest = &t[i + "self.memory.get_element(".len()..];
+            if let Some(n) = reg_no(rest) {
+                if alloc1.contains(&n) && rest.contains("[0], 0usize)") {
+                    p.one_tuple = true;
+                }
+            }
+        }
+        // phi: `reg_D = reg_S;`
+        if let Some((d, s)) = t.split_once(" = ") {
+            if reg_no(d).is_some() && !d.contains('[') && s.ends_with(';') && !s.contains('[') && !s.contains('(') {
+                if let Some(n) = reg_no(s) {
+                    if elem.contains(&n) {
+                        p.phi_of_element_ptr = true;
+                    }
+                }
+            }
+        }
+        if t.contains("state.mem(self.memory.load(") || t.contains("state.delay(self.memory.load(") {
+            p.state_operand_load = true;
+        }
+        if let Some(i) = t.find("state.delay(") {
+            // `state.delay(SRC, TIME, Nusize);`
+            let args = t[i + "state.delay(".len()..].trim_end_matches(';').trim_end_matches(')');
+            let parts: Vec<&str> = args.rsplitn(3, ", ").collect();
+            if parts.len() == 3 {
+                if let Some(n) = reg_no(parts[1]) {
+                    if parts[1].ends_with("[0]") && elem.contains(&n) {
+                        p.delay_time_element_ptr = true;
+                    }
+                }
+            }
+        }
+        if let Some(r) = t.strip_prefix("closure_upvalues.push(self.memory.load(") {
+            if let Some(n) = reg_no(r) {
+                if elem.contains(&n) {
+                    captured.insert(n);
+                }
+            }
+        }
+        if let Some(r) = t.strip_prefix("self.memory.store(") {
+            if let Some(n) = reg_no(r) {
+                stored.insert(n);
+            }
+        }
+    }
+    if captured.iter().any(|n| stored.contains(n)) {
+        p.element_captured_by_value_and_assigned = true;
+    }
+}
+
+fn analyse(source: &str) -> Patterns {
+    let mut p = Patterns::default();
+    let lines: Vec<&str> = source.lines().collect();
+    let mut start = None;
+    for (i, l) in lines.iter().enumerate() {
+        if l.starts_with("    fn ") || l.starts_with("    pub fn ") {
+            if let Some(s) = start {
+                analyse_fn(&lines[s..i], &mut p);
+            }
+            start = Some(i);
+        }
+    }
+    if let Some(s) = start {
+        analyse_fn(&lines[s..], &mut p);
+    }
+    p
 }
 
 fn first_error_line(stderr: &str) -> String {
@@ -194,6 +335,13 @@ fn panic_message(stderr: &str) -> String {
 fn qualifier(msg: &str) -> String {
     let mut code = String::new();
     let mut rest = msg.trim();
+    // `called `Result::unwrap()` on an `Err` value: "text"`: the text is the interesting part
+    let unq;
+    if let Some(i) = rest.find("on an `Err` value: ") {
+        unq = rest[i + "on an `Err` value: ".len()..].replace(['"', '\\'], "");
+        rest = &unq;
+        code = "unwrap-err".to_string();
+    }
     if let Some(r) = rest.strip_prefix("error[") {
         if let Some(i) = r.find(']') {
             code = r[..i].to_string();
@@ -281,6 +429,7 @@ fn check(src: &str, inputs: &Inputs, n: u64) -> Out {
         o.discard = Some("no-dsp".into());
         return o;
     };
+    o.pat = analyse(&output.source);
     if (io.input, io.output) != (a.n_in, a.n_out) {
         fail!("channel-count", "emit_rust reports {}/{} I/O channels, the VM {}/{}", io.input, io.output, a.n_in, a.n_out);
     }
@@ -383,11 +532,21 @@ fn finish(src: &str, inputs: &Inputs, n: u64, classes: Vec<String>, featureful: 
         r.direct = Some(direct);
         return r;
     }
-    let mut r = match &o.fail {
-        Some((s, m)) => CaseResult::fail(hash, s.clone(), m.clone()),
-        None => CaseResult::held(hash),
+    let known = o.fail.as_ref().and_then(|(s, _)| tolerated(s, src, &o.pat, cx));
+    let mut r = match (&o.fail, known) {
+        (Some(_), Some(id)) => {
+            let mut r = CaseResult::held(hash);
+            r.count(&format!("excluded_by_known_finding:{id}"), 1);
+            r.classes.push("tolerated-known-finding".into());
+            r
+        }
+        (Some((s, m)), None) => CaseResult::fail(hash, s.clone(), m.clone()),
+        (None, _) => CaseResult::held(hash),
     };
-    r.classes = classes;
+    r.classes.extend(classes);
+    if o.pat.one_tuple {
+        r.classes.push("pat:one-tuple".into());
+    }
     if let Some(why) = &o.refused {
         r.classes.push("refused".into());
         r.classes.push(if o.refused_by_frontend { "refused:by-frontend".into() } else { "refused:by-rustgen".into() });
@@ -408,7 +567,7 @@ fn finish(src: &str, inputs: &Inputs, n: u64, classes: Vec<String>, featureful: 
     for c in &o.counters {
         r.count(c, 1);
     }
-    r.nontrivial = (o.ran && featureful) || r.is_fail();
+    r.nontrivial = (o.ran && featureful && known.is_none()) || r.is_fail();
     if cx.render || r.is_fail() {
         r.render = Some(json!({"text": src, "inputs": inputs.describe(), "n": n}));
     }
@@ -465,26 +624,97 @@ fn apply_exclusions(p: &mut Prog, cx: &Cx, r: &mut Vec<String>) {
     fn is_proj(e: &E) -> bool {
         matches!(e, E::Proj(..) | E::Field(..))
     }
+    /// the expression whose value a block / parenthesis passes on
+    fn tail(e: &mut E) -> &mut E {
+        match e {
+            E::Block(_, last) => tail(last),
+            other => other,
+        }
+    }
     let ex_operand = cx.excluded(KF_STATE_OPERAND_PROJ);
     let ex_time = cx.excluded(KF_DELAY_TIME_PROJ);
-    let (mut hit_operand, mut hit_time) = (false, false);
+    let ex_arm = cx.excluded(KF_IF_ARM_PROJ);
+    let (mut hit_operand, mut hit_time, mut hit_arm) = (false, false, false);
     prog::visit_prog_mut(p, &mut |e| match e {
-        E::Mem(_, x) if ex_operand && is_proj(x) => {
-            plus_zero(x);
-            hit_operand = true;
-        }
-        E::Delay(_, _, x, t) => {
-            if ex_operand && is_proj(x) {
-                plus_zero(x);
+        E::Mem(_, x) => {
+            if ex_operand && is_proj(tail(x)) {
+                plus_zero(tail(x));
                 hit_operand = true;
             }
-            if ex_time && is_proj(t) {
-                plus_zero(t);
+        }
+        E::Delay(_, _, x, t) => {
+            if ex_operand && is_proj(tail(x)) {
+                plus_zero(tail(x));
+                hit_operand = true;
+            }
+            if ex_time && is_proj(tail(t)) {
+                plus_zero(tail(t));
                 hit_time = true;
+            }
+        }
+        E::If(_, a, b) if ex_arm => {
+            for arm in [a, b] {
+                if is_proj(tail(arm)) {
+                    plus_zero(tail(arm));
+                    hit_arm = true;
+                }
             }
         }
         _ => {}
     });
+    if hit_arm {
+        r.push(format!("excluded_by_known_finding:{KF_IF_ARM_PROJ}"));
+    }
+    if cx.excluded(KF_CAPTURE_BY_VALUE) {
+        // assignments to pattern-bound variables that some lambda mentions become fresh bindings
+        let mut bound: Vec<String> = vec![];
+        let mut in_lambda: Vec<String> = vec![];
+        fn pat_names(p: &prog::Pat, out: &mut Vec<String>) {
+            match p {
+                prog::Pat::Var(n) => out.push(n.clone()),
+                prog::Pat::Tup(ps) => ps.iter().for_each(|q| pat_names(q, out)),
+                prog::Pat::Rec(fs) => fs.iter().for_each(|(_, q)| pat_names(q, out)),
+            }
+        }
+        prog::visit_prog_mut(p, &mut |e| match e {
+            E::Block(ss, _) => {
+                for s in ss.iter() {
+                    if let prog::S::Let(pt, _) = s {
+                        if !matches!(pt, prog::Pat::Var(_)) {
+                            pat_names(pt, &mut bound);
+                        }
+                    }
+                }
+            }
+            E::Lam(_, body) => {
+                let mut b = (**body).clone();
+                prog::visit_mut(&mut b, &mut |x| {
+                    if let E::Var(n) = x {
+                        in_lambda.push(n.clone());
+                    }
+                });
+            }
+            _ => {}
+        });
+        let mut hit = false;
+        prog::visit_prog_mut(p, &mut |e| {
+            if let E::Block(ss, _) = e {
+                for s in ss.iter_mut() {
+                    if let prog::S::Assign(n, v) = s {
+                        if bound.contains(n) && in_lambda.contains(n) {
+                            let fresh = format!("{n}_na");
+                            let v = std::mem::replace(v, E::Now);
+                            *s = prog::S::Let(prog::Pat::Var(fresh), v);
+                            hit = true;
+                        }
+                    }
+                }
+            }
+        });
+        if hit {
+            r.push(format!("excluded_by_known_finding:{KF_CAPTURE_BY_VALUE}"));
+        }
+    }
     if hit_operand {
         r.push(format!("excluded_by_known_finding:{KF_STATE_OPERAND_PROJ}"));
     }
